@@ -736,6 +736,24 @@ class Flow:
                 e_first0 = self.expand(_subst_names(copy.deepcopy(other), env0), loop, depth - 1, stack)
                 if " ".join(ast.unparse(init0).split()) == " ".join(ast.unparse(e_first0).split()):
                     return inner0
+                # head/tail split: INIT = T[0] and the loop runs over T[1:] keeping the element itself  ->  the extreme over all of T
+                it_x = self.expand(copy.deepcopy(loop.stmt.iter), loop, depth - 1, stack)
+                if isinstance(it_x, ast.Subscript) and isinstance(it_x.slice, ast.Slice) and it_x.slice.upper is None and it_x.slice.step is None \
+                        and isinstance(it_x.slice.lower, ast.Constant) and it_x.slice.lower.value == 1:
+                    def unlist(b_):
+                        while isinstance(b_, ast.Call) and isinstance(b_.func, ast.Name) and b_.func.id in ("list", "tuple") and len(b_.args) == 1 and not b_.keywords:
+                            b_ = b_.args[0]
+                        return b_
+                    base = unlist(it_x.value)
+                    init_alt = None
+                    if isinstance(init0, ast.Subscript) and isinstance(init0.slice, ast.Constant) and init0.slice.value == 0:
+                        init_alt = unlist(init0.value)
+                    elif isinstance(init0, ast.Call) and isinstance(init0.func, ast.Name) and init0.func.id == "__item__" and len(init0.args) == 2 \
+                            and isinstance(init0.args[1], ast.Constant) and init0.args[1].value == 0:
+                        init_alt = unlist(init0.args[0])
+                    norm = lambda x_: " ".join(ast.unparse(x_).split())
+                    if init_alt is not None and norm(init_alt) == norm(base) and norm(other) == norm(loop.stmt.target):
+                        return ast.fix_missing_locations(ast.copy_location(ast.Call(func=ast.Name(id=kind0, ctx=ast.Load()), args=[copy.deepcopy(base)], keywords=[]), loop.stmt))
                 return ast.Call(func=ast.Name(id=kind0, ctx=ast.Load()), args=[init0, inner0], keywords=[])
         # the update is the only statement under a comparison of its own value with the running variable, directly in the loop
         tests = [(t, lab) for t, lab in self.cfg.edges_dominating(dn) if t.kind == "test" and self.cfg.dominates(loop, t)]
